@@ -126,6 +126,33 @@ def run_surface(col):
     finish_info(col, it)
 
 
+def run_surface_2d(col, kind):
+    """follower loads on plane-strain and axisymmetric fields (hoop coupling F33 = 1 + u_r/R of the load stiffness): the boundary
+    region supplies in-plane normals padded with a zero third component (RegionBoundary ensure_3d)"""
+    it = new_interp()
+    fc, unknowns, (ra, rb), d, tdim = _setup(it, kind, nq=1)
+    nrm = np.empty((3, 1, 2), dtype=object)
+    N2 = symarray("N", (2, 1, 2))
+    nrm[:2] = N2
+    nrm[2] = ring.ZERO
+    ra.normals = nrm
+    p = sym("pressure")
+    cls = it.get("felupe.mechanics._solidbody_pressure:SolidBodyPressure")
+    item = it.call(cls, [fc], dict(pressure=p))
+    asm = it.getattr(item, "assemble")
+    r = it.call(it.getattr(asm, "vector"), [fc], {})
+    K = it.call(it.getattr(asm, "matrix"), [fc], {})
+    _deriv(col, "C01.O4", "SolidBodyPressure[%s]" % kind, method_where(cls, "_matrix"), r, K, unknowns, symmetric=False)
+    cls = it.get("felupe.mechanics._solidbody_cauchy_stress:SolidBodyCauchyStress")
+    sig = symarray("sig", (3, 3))
+    item = it.call(cls, [fc], dict(cauchy_stress=sig))
+    asm = it.getattr(item, "assemble")
+    r = it.call(it.getattr(asm, "vector"), [fc], {})
+    K = it.call(it.getattr(asm, "matrix"), [fc], {})
+    _deriv(col, "C01.O5", "SolidBodyCauchyStress[%s]" % kind, method_where(cls, "_matrix"), r, K, unknowns, symmetric=False)
+    finish_info(col, it)
+
+
 def run_multiplier(col):
     """O8: tools._newton.fun_items / jac_items and FreeVibration.evaluate apply assemble.multiplier to vector and matrix alike"""
     it = new_interp()
